@@ -5,6 +5,7 @@ import os
 import shutil
 
 from vf import boot, catalog, fsmon, gen, model
+from vf.catalog import MISSING
 from vf.session import make_scratch
 
 PROPERTY = "C07"
@@ -55,14 +56,15 @@ def cases_for(spec):
         for asg in assignments(n):
             order = list(range(n))
             r.shuffle(order)
-            out.append({"files": [list(a) for a in asg], "order": order})
+            out.append({"files": [list(a) for a in asg], "order": order,
+                        "missing": [r.random() < 0.25 for _ in range(n)]})
     cells = [(ro, w) for ro in ROLES for w in WHEN if not (ro != "modified" and w == "after_mod")]
     for n, count in ((3, 150), (4, 150)) if spec["tier"] == "quick" else ((4, 2500), (5, 800)):
         for _ in range(count):
             asg = [list(r.choice(cells)) for _ in range(n)]
             order = list(range(n))
             r.shuffle(order)
-            out.append({"files": asg, "order": order})
+            out.append({"files": asg, "order": order, "missing": [r.random() < 0.25 for _ in range(n)]})
     return out
 
 
@@ -82,7 +84,7 @@ def _modify(obj, kind, tag):
 
 
 def _modified(content, kind, tag):
-    c = copy.deepcopy(content)
+    c = copy.deepcopy(content) if content != MISSING else ({} if kind == "dict" else [])
     if kind == "dict":
         c["mod_" + tag] = [tag]
     else:
@@ -124,12 +126,15 @@ def run_case(info, trigger, case):
         cap_before = cls.get_buffer_capacity()
         res = [catalog.Resource(info, scratch, f"f{i}") for i in range(n)]
         extra = catalog.Resource(info, scratch, "unrelated")
+        missing = case.get("missing") or [False] * n
         for i, r in enumerate(res):
-            r.outside_write(_content(kind, f"f{i}"), bump=False)
+            if not missing[i]:
+                r.outside_write(_content(kind, f"f{i}"), bump=False)
         extra.outside_write(_content(kind, "unrelated"), bump=False)
         objs = [r.new_handle() for r in res]
         xobj = extra.new_handle()
-        disk = [_content(kind, f"f{i}") for i in range(n)]  # what the file must hold at the end
+        # what the file must hold at the end (MISSING = must not exist)
+        disk = [MISSING if missing[i] else _content(kind, f"f{i}") for i in range(n)]
         for o in objs:
             if case.get("preload", True):
                 lib(lambda o=o: o())
@@ -267,8 +272,12 @@ def run_case(info, trigger, case):
                      after_error=bool(conflicts))
         if cls.backend_is_buffered():
             return V("still_buffered", "backend_is_buffered() is still true")
+        empty = {} if kind == "dict" else []
         for i, o in enumerate(objs):
             v, e = lib(lambda o=o: o())
+            if disk[i] == MISSING and e is None:
+                # a missing file reads as the empty container
+                v = MISSING if model.strict_eq(v, empty) else v
             if e is not None or not model.strict_eq(v, disk[i]):
                 return V("collection_not_in_sync", f"object {i} reads {v!r} / {type(e).__name__ if e else None}, disk has {disk[i]!r}")
             _, e = lib(lambda o=o, i=i: _modify(o, kind, f"post{i}"))
@@ -315,5 +324,6 @@ def floors(tier, merged):
 def replay(case):
     boot.boot()
     info = catalog.info(case["cls"])
-    v, _ = run_case(info, case["trigger"], {"files": case["files"], "order": case["order"]})
+    v, _ = run_case(info, case["trigger"], {"files": case["files"], "order": case["order"],
+                                           "missing": case.get("missing")})
     return [v] if v else []
